@@ -21,6 +21,9 @@ BUILT = {
  "C07": ("exploration", "runtime monitor: relational trace comparison - one generated job run through collect(), next(), fast_forward() and collect(nexts=n) for every n, observed by LineEvent and side-effect hooks",
          "The three entry points' per-line traces, final variables/counters/validity/stop state/errors/printouts and returned lines must be identical; collect(nexts=n) must return a prefix and its event trace must be a prefix of the full trace with no set_variable/print tagged with a later line.",
          "no oracle beyond the runs themselves; generator excludes time/random functions", "DESIGN.md#c07"),
+ "C08": ("exploration", "runtime monitor: relational trace comparison of each group member across standalone, three serial and three breadth-first CsvPaths methods in several group orders (LineEvent hook keyed by CsvPath instance)",
+         "For every generated group and order, each member's per-line trace, final variables, counters, validity, stop state, printouts, errors and collected lines must equal its standalone run; the lines next_paths / next_by_line / collect_by_line hand to the caller must equal the concatenation resp. per-line union / intersection of the members' own decisions.",
+         "the standalone CsvPath run is the reference; members use no cross-path signals, references or rewriting functions", "DESIGN.md#c08"),
  "C13": ("exploration", "runtime monitor: trace-specification checking ('no component / line evaluated after stop or skip fires', 'advance(n) lines have no effects', 'last() fires once on the final line') on LineEvent + EvalEvent hooks, plus the reference evaluator",
          "Systematic product of control form x position x firing line x scan window x blank layout (about 20k real runs) plus random two-control / onmatch programs; per line the pushes that happened, the components evaluated, matches and counters are compared with the documented behaviour. Known findings F9/F9b attributed by exact emulation.",
          "reference semantics from stop.md/advance.md/last.md; A1 corner (scan window ending on a blank record) not decided", "DESIGN.md#c13"),
